@@ -206,3 +206,5 @@ func (c *udpClient) waitReply(k KeySpec, rid uint64, within time.Duration) (*dec
 		time.Sleep(300 * time.Microsecond)
 	}
 }
+
+func sscodecUDPAddr(a *net.UDPAddr) []byte { return sscodec.AddrIP(a.IP, a.Port, false) }
